@@ -61,7 +61,7 @@ def run(tier, build, replay=None):
         base["impl"] = [hist.impl_compute(base["cases"][0])]
     else:
         base = l2.run(tier)
-    limit = 700 if tier == "quick" else 12000
+    limit = 2000 if tier == "quick" else 12000
     pre_cases, pre_src, day_jobs = [], [], []
     for idx, (c, i) in enumerate(zip(base["cases"], base["impl"])):
         if len(pre_cases) >= limit:
